@@ -37,6 +37,10 @@ def populate_script(hf, r, fill_bytes, nfiles=40, xattrs=True, special=True, spa
     if filler:
         late += ["symlink big/sl_%02d /t%d" % (i, i) for i in range(8)]
         # small directories (inline with inline_data): an early one that names late inodes, and a late one
+        # a late directory of several blocks, one of which is emptied again (every record unused)
+        big = ["mkdir d1/latebig"] + ["write /dev/null d1/latebig/%s_%02d" % ("L" * 90, i) for i in range(28)]
+        big += ["rm d1/latebig/%s_%02d" % ("L" * 90, i) for i in range(6, 21)]
+        late[0:0] = big
         late[0:0] = ["write /dev/null d1/sub/x/late_file", "symlink d1/sub/x/late_link /y", "mkdir d1/late", "write %s d1/late/a" % hf["tiny"], "write /dev/null d1/late/b"]
     used = 0
     i = 0
